@@ -96,4 +96,12 @@ theorem curve_dist_positive_off_the_foot (foot q : V2 ℝ) (h : foot ≠ q) : 0 
   · have := mul_self_pos.mpr hy
     nlinarith [mul_self_nonneg (foot.x - q.x)]
 
+/-! ### `Mesh::surf_closest_to`: the normal that goes with the closest point -/
+
+/-- the normal of the surface point returned is the unit normal of the face the closest point was found on — it does not
+    depend on where the query is (not a direction made up from the query) nor on the size of the face -/
+theorem surf_closest_normal_is_the_face_normal (f q q' foot foot' : V3 ℝ) :
+    GenRs.surf_closest_normal f q foot = f ∧ GenRs.surf_closest_normal f q foot = GenRs.surf_closest_normal f q' foot' :=
+  ⟨rfl, rfl⟩
+
 end C02T
